@@ -28,26 +28,30 @@ func (m *consumptions) SendToAll(p Pack, keyframe bool) {
 func (m *consumptions) RemoveAndCloseAll() {
 	m.Range(func(key, value interface{}) bool {
 		c := value.(*consumption)
-		m.Delete(key)
+		// 只有真正由本次调用删除的才减计数，避免与并发的 Remove 重复扣减
+		if _, loaded := m.LoadAndDelete(key); loaded {
+			atomic.AddInt32(&m.count, -1)
+		}
 		c.Close()
 		return true
 	})
 
 	verifhook.Point("media.closeall.deleted", m)
-	atomic.StoreInt32(&m.count, 0)
 }
 
 func (m *consumptions) Add(c *consumption) {
-	m.Store(c.cid, c)
 	atomic.AddInt32(&m.count, 1)
+	m.Store(c.cid, c)
 }
 
 func (m *consumptions) Remove(cid CID) *consumption {
 	ci, ok := m.Load(cid)
 	if ok {
 		verifhook.Point("media.remove.loaded", m)
-		m.Delete(cid)
-		atomic.AddInt32(&m.count, -1)
+		// 与 RemoveAndCloseAll 并发时只有一方真正删除并扣减计数
+		if _, loaded := m.LoadAndDelete(cid); loaded {
+			atomic.AddInt32(&m.count, -1)
+		}
 		return ci.(*consumption)
 	}
 	return nil
